@@ -235,6 +235,16 @@ def ioExactB (tol : Rat) (n : Nat) (c : GQ) (one two : List GQ) : Bool :=
       let y := ((Dict.get? Y k).getD []).getD i 0
       !(decide ((x - y).normSq < tol * tol)) || decide (x = y)
 
+/-! #### dense / sparse matrices: `hermitian_conjugated(M) = conj(M).T`, `is_hermitian(M)` is
+`max |M - M†| < EQ_TOLERANCE` (for sparse matrices the maximum over the stored non-zeros of the
+difference, 0 if there are none: the same number) -/
+
+/-- `numpy.conjugate(M.T)` / `M.getH()` on the flattened `n × n` matrix -/
+def hcMatrix (n : Nat) (M : List GQ) : List GQ := hcOneBody n M
+
+def isHermitianMatrix (tol : Rat) (n : Nat) (M : List GQ) : Bool :=
+  decide (0 < tol) && decide (amaxSq (diffEntries M (hcMatrix n M)) < tol * tol)
+
 def isHermitianQubit (tol : Rat) (a : Op) : Bool := isclose tol a (hcQubit a)
 def isHermitianQuad (tol : Rat) (a : Op) : Bool := isclose tol a (hcQuad a)
 
